@@ -693,6 +693,66 @@ def check_axis_spellings(rep: Report, ix):
     rep.floor("spellings of (anti-)periodic axis conditions", len(cases), 9)
 
 
+
+def check_boundary_coordinates(rep: Report, ix):
+    """Expression boundary conditions are evaluated at the coordinates GridBase._boundary_coordinates returns (both the
+    interpreted and the compiled route use it, so comparing the routes cannot show an error there).  The function is
+    interpreted (pdelint/npsem.py) on grids with 1-3 axes of pairwise different sizes: entry [j..., k] of the result must
+    be the k-th coordinate of the boundary point of face cell j... -- the bound of the axis (shifted by the offset) for the
+    normal axis, the cell centre x_k[j_k] for the others, with the face cells in the order of the remaining grid axes."""
+    import itertools as _it
+
+    import numpy as _np
+
+    from .. import npsem as ns
+
+    f = ix.func("pde/grids/base.py", "GridBase._boundary_coordinates")
+    rep.saw("functions", f.ref)
+    m = f.module
+    scope_vars = {n: ns.Opaque(n) for n in list(m.imports) + list(m.functions) + list(m.classes) + list(m.assigns) if "." not in n}
+    scope_vars["np"] = ns.NP
+    sizes = (2, 3, 4)
+    off = sp.Symbol("offset", real=True)
+    n = 0
+    for n_axes in (1, 2, 3):
+        shape = sizes[:n_axes]
+        coords = tuple(ns.sym_array(f"x{k}", (shape[k],), real=True) for k in range(n_axes))
+        bounds = tuple((sp.Symbol(f"lo{k}", real=True), sp.Symbol(f"hi{k}", real=True)) for k in range(n_axes))
+        for axis in range(n_axes):
+            for upper in (False, True):
+                grid = ns.Stub("grid", _axes_bounds=bounds, axes_bounds=bounds, _axes_coords=coords, axes_coords=coords, num_axes=n_axes, shape=shape, __kind__=("GridBase",))
+                sem = ns.NpSem(where=f.ref)
+                tag = f"boundary-coordinates:{n_axes}-axes:axis{axis}:{'upper' if upper else 'lower'}"
+                try:
+                    res = sem.run_function(f.node, {}, (grid, axis, upper), {"offset": off}, outer=ns.Scope(scope_vars))
+                except ns.Raised as e:
+                    rep.oblige(tag, False, e.what)
+                    rep.violation("C02.boundary-coordinates", f"{f.ref}::raises", f"{tag}: raises `{e.what}`")
+                    continue
+                except ns.Unsupported as e:
+                    raise AnalysisError(f"{f.ref} [{tag}]: {e}") from e
+                n += 1
+                others = [k for k in range(n_axes) if k != axis]
+                want = _np.empty(tuple(shape[k] for k in others) + (n_axes,), dtype=object)
+                for j in _it.product(*[range(shape[k]) for k in others]):
+                    for k in range(n_axes):
+                        if k == axis:
+                            want[j + (k,)] = bounds[k][1] - off if upper else bounds[k][0] + off
+                        else:
+                            want[j + (k,)] = coords[k][j[others.index(k)]]
+                diff = ns.arrays_equal(res, want)
+                rep.oblige(tag + ": coordinates of the face cells in grid-axis order", not diff, None if not diff else str(diff[0])[:160])
+                if diff:
+                    what = f"shape {diff[0][1]} instead of {diff[0][2]}" if diff[0][0] == "shape" else f"entry {tuple(diff[0][0])} is `{diff[0][1]}`, expected `{diff[0][2]}`"
+                    rep.violation(
+                        "C02.boundary-coordinates",
+                        f"{f.ref}::{n_axes}-axes::axis{axis}",
+                        f"{tag}: {what} (x<k>_<j> = centre j of axis k): boundary conditions given as expressions of the coordinates are imposed with the coordinates of another face cell",
+                        line=f.node.lineno,
+                    )
+    rep.floor("boundary-coordinate cases (axes x side)", n, 12)
+
+
 def check(tier: str) -> Report:
     rep = Report("C02", tier, "proof", "ast->sympy extraction of ghost-cell formulas (interpreted and compiled setters) checked against the defining equations; index tables on symbolic shapes")
     rep.explanation = (
@@ -813,6 +873,7 @@ def check(tier: str) -> Report:
     check_parsing(rep, ix)
     check_copy(rep, ix)
     check_axis_spellings(rep, ix)
+    check_boundary_coordinates(rep, ix)
     rep.assumptions += [
         "every axis has at least two cells (the code raises otherwise)",
         "values of user expressions/callables are uninterpreted symbols (their meaning is property C11)",
